@@ -166,6 +166,11 @@ def _compute_constraints_of_field_reference(expression, ir):
         )
 
 
+# Sizes above 64 bits are rejected by the constraints check; the bounds of
+# moderately oversized types are still computed, for that check's error message.
+_MAX_SIZE_WITH_COMPUTED_BOUNDS = 4096
+
+
 def _set_integer_constraints_from_physical_type(expression, physical_type, type_size):
     """Copies the integer constraints of an expression from a physical type."""
     # SCAFFOLDING HACK: In order to keep changelists manageable, this hardcodes
@@ -184,10 +189,12 @@ def _set_integer_constraints_from_physical_type(expression, physical_type, type_
     #
     # TODO(bolms): Add a scheme for defining integer bounds on user-defined
     # external types.
-    if type_size is None:
+    if type_size is None or not 1 <= type_size <= _MAX_SIZE_WITH_COMPUTED_BOUNDS:
         # If the type_size is unknown, then we can't actually say anything about the
-        # minimum and maximum values of the type.  For UInt, Int, and Bcd, an error
-        # will be thrown during the constraints check stage.
+        # minimum and maximum values of the type.  The same goes for a size that is
+        # zero or negative (2**size is not an integer) or absurdly large (2**size
+        # cannot be computed in reasonable time and memory).  For UInt, Int, and
+        # Bcd, an error will be thrown during the constraints check stage.
         expression.type.integer.minimum_value = "-infinity"
         expression.type.integer.maximum_value = "infinity"
         return
